@@ -37,10 +37,16 @@ def lean_phase(ctx: Ctx, mod) -> str:
             ctx.extra["translator"] = notes
         except translate.ShapeNotRecognised as e:
             ctx.obligation_broken("translator: source shape not recognised", str(e))
-    # the theorems of this property
-    ok, out = core.lake_build(targets)
-    if not ok:
-        ctx.obligation_broken(f"lake build {' '.join(targets)}", out)
+    # the theorems of this property (each module separately: a module that no longer builds only
+    # takes its own theorems down)
+    built = []
+    for t in targets:
+        ok_t, out = core.lake_build([t])
+        if ok_t:
+            built.append(t)
+        else:
+            ctx.obligation_broken(f"lake build {t}", out)
+    ok = bool(built)
     # the executable model driver
     okd, outd = core.lake_build(["aiudrv"])
     if not okd:
@@ -50,7 +56,7 @@ def lean_phase(ctx: Ctx, mod) -> str:
         ctx.driver.ok = False
     # audit
     if ok:
-        res, raw = core.audit_axioms(ctx.id, targets, mod.THEOREMS)
+        res, raw = core.audit_axioms(ctx.id, built, mod.THEOREMS)
         ctx.obligations = res
         for name, ax in res.items():
             if ax is None:
@@ -64,7 +70,7 @@ def lean_phase(ctx: Ctx, mod) -> str:
         ctx.obligation_broken("forbidden tokens in Lean sources", "\n".join(hits))
     if ctx.tier == "thorough" and ok and os.environ.get("VERIF_LEANCHECKER", "1") == "1":
         with core.lean_lock():
-            rc, o = core._run(["lake", "env", "leanchecker", *targets], cwd=core.LEAN, timeout=3600)
+            rc, o = core._run(["lake", "env", "leanchecker", *built], cwd=core.LEAN, timeout=3600)
         ctx.extra["leanchecker"] = "ok" if rc == 0 else "FAILED"
         if rc != 0:
             ctx.obligation_broken("leanchecker re-check of the compiled theorems", o)
